@@ -47,4 +47,21 @@ META = {
          'identity, sampled with a 2-worker pool); the hypothesis "coherent" of the history theorem (equal needed tuples imply equal '
          'present outputs) is what the loaders provide and is validated by the correspondence runs, not proved from the loader model; '
          'numpy RandomState(seed) assumed a pure function of the seed.'),
+ 'C14': dict(
+    text='Theorems (Properties/C14.v, closed under the global context) over the executable model of GraphicalModel/ElfiModel editing '
+         '(coq/Graph/Edit.v: node creation with positional parents, add_edge, remove_node with recursive private-parent clean-up, '
+         'update_node/become, parameter_names getter and setter, observed data, copy, save/load) on any number of live models: every '
+         'model stays structurally consistent along every edit script (distinct names, edges and observed data only on existing nodes; '
+         'decidable guards stated); removal never creates a cycle, removes the node and leaves other states untouched; a new node fed '
+         'by existing nodes keeps the graph acyclic; after become the node carries exactly the replacement state and the replacement '
+         'is gone; parameter_names = exactly the parameter nodes, sorted; the setter marks exactly the named nodes. Correspondence on '
+         'every run: random edit scripts through the real API with dumps of every live model after every operation compared with the '
+         'model, the property clauses (consistency incl. acyclicity and distinct positional indices, become keeps children / takes '
+         'state, parents, observed data; removal takes private constants and observed data; no other live model changes = copy '
+         'independence; copy and reloaded model equal their source) evaluated in Coq on the implementation dumps, and seeded generate '
+         'on every live model at the end compared with the pipeline model of C03.',
+    note=COMMON_NOTE + 'Partial: acyclicity after become (under the guard "replacement is not a descendant") and "become keeps the '
+         'children" are checked on the implementation dumps on every run but not yet proved for the model; pickle of callables '
+         '(save/load) is runtime behaviour, sampled. Known finding: become onto a descendant leaves a cycle (KNOWN_FINDINGS.txt); the '
+         'deprecated explicit add_edge producing duplicate positional indices or cycles is outside the property statement and skipped.'),
 }
